@@ -115,6 +115,9 @@ def build(s, form, offset=None):
     return m, ok2d, info
 
 
+GAP_HITS = [0]      # per worker process: string differences inside C01's documented gap with all labels preserved (counted, not judged)
+
+
 def cmp_mol(O, m, o, stereo, tag):
     """differences between written m and read o: list of (field, expected, got)"""
     out = []
@@ -136,7 +139,20 @@ def cmp_mol(O, m, o, stereo, tag):
             if es[k] != gs[k]:
                 out.append((nm, es[k], gs[k]))
         if str(e) != str(o):
-            out.append(('canonical', str(e), str(o)))
+            # every atom, bond and per-centre configuration already agrees at this point: a differing canonical STRING is then C01's business.
+            # Inside C01's documented gap (configuration on centres with constitutionally equivalent substituents) it is excused and counted.
+            same_labels = all(es[k] == gs[k] for k in ('th', 'al', 'ct'))
+            gap = False
+            if same_labels:
+                try:
+                    from oracles.o01_gaps import gaps
+                    gap = any(gaps(e))
+                except Exception:
+                    gap = False
+            if gap:
+                GAP_HITS[0] += 1
+            else:
+                out.append(('canonical', str(e), str(o)))
         bad = O.ct_geometry_mismatch(o, src=m)   # independent geometry: every label read agrees with the written coordinates
         if bad:
             out.append(('cis-trans-vs-coordinates', bad, {k: gs['ct'][k] for k in bad}))
@@ -1022,7 +1038,12 @@ def bounded(run):
 
 def _dispatch(t):
     fn, items = t
-    return fn(items)
+    GAP_HITS[0] = 0
+    n, keys, samples, vs, st = fn(items)
+    if GAP_HITS[0]:
+        st = dict(st or {})
+        st['canonical_string_differs_inside_C01_gap_with_all_labels_preserved'] = GAP_HITS[0]
+    return n, keys, samples, vs, st
 
 
 REPLAY = {'check_mol': lambda a: check_mol(a)[0], 'check_rxn': lambda a: check_rxn(a)[0], 'check_meta': check_meta,
